@@ -464,6 +464,8 @@ def restore_checkpoint(path: str, model: nnx.Module) -> nnx.Module:
     import orbax.checkpoint as ocp
 
     checkpointer = ocp.PyTreeCheckpointer()
-    state = checkpointer.restore(path)
-    graphdef, _ = nnx.split(model)
+    graphdef, target = nnx.split(model)
+    # restore into the model's own state structure: without a target the tree
+    # comes back with string keys, and list indices then sort as '10' < '2'
+    state = checkpointer.restore(path, item=target)
     return nnx.merge(graphdef, state)
